@@ -98,15 +98,16 @@ def _setup():
     return z3, c[0], (into[0] if into else None), mk
 
 
-def run_parser(ex, f, inp):
+def run_parser(ex, f, inp, cuts=()):
     from mirsym.models_ws import NetStream
-    return ex.run_function(f, [("ref", ("local", HEAPF, 0, ()))], heap={HEAPF: {0: NetStream(tuple(inp))}})
+    return ex.run_function(f, [("ref", ("local", HEAPF, 0, ()))], heap={HEAPF: {0: NetStream(tuple(inp), cuts=tuple(cuts))}})
 
 
 def _job(job):
     kind, name = job
+    name, plan = c02_req.split_plan(name)
     t0 = time.time()
-    res = {"template": name, "kind": kind, "verdict": "unsat", "fails": [], "n_checks": 0, "paths": 0}
+    res = {"template": name, "plan": plan, "kind": kind, "verdict": "unsat", "fails": [], "n_checks": 0, "paths": 0}
     try:
         z3, f, finto, mk = _setup()
         from mirsym.exec import z3bool
@@ -122,7 +123,7 @@ def _job(job):
             tpl = ok_templates(_G["tier"])[name]
             inp, holes, assume = c02_req.instantiate(z3, tpl)
         ctx, ex = mk(assume)
-        out = run_parser(ex, f, inp)
+        out = run_parser(ex, f, inp, c02_req.cuts_for(plan, len(inp)))
         res["paths"] = len(out.rets) + len(out.panics)
         solver_s = 0.0
         def valid(pc, goal, what, kindf="value"):
@@ -248,7 +249,8 @@ def _concrete(data):
         ctx, ex = mk()
         out = run_parser(ex, f, list(data))
         if out.panics and not out.rets:
-            return "ALLOC" if str(out.panics[0][1]).startswith("ALLOC") else "PANIC"
+            m0 = str(out.panics[0][1])
+            return "ALLOC" if m0.startswith("ALLOC") else "HANG" if m0.startswith("DIVERGES") else "PANIC"
         if len(out.rets) != 1:
             return "ENGINE-ERROR %d outcomes" % len(out.rets)
         return fmt_engine(ex, finto, out.rets[0][1])
@@ -261,8 +263,8 @@ def native_check(exe, data, kind):
         out = mengine.native_eval(exe, ["respalloc " + (data.hex() or "-")])[0]
         m = re.search(r"alloc=(\d+)", out)
         return (m is not None and int(m.group(1)) > 65536 + 16 * len(data)) or out.startswith("PANIC"), out
-    out = mengine.native_eval(exe, ["resp 0 " + (data.hex() or "-")])[0]
-    return out == "PANIC", out
+    out = mengine.native_eval_guarded(exe, "resp 0 " + (data.hex() or "-"), timeout=10)
+    return out in ("PANIC", "HANG"), out
 
 
 def concretise_alloc(data):
@@ -275,6 +277,8 @@ def role(data, kind, what):
         return "response:chunk-size-allocation" if b"chunked" in data.lower() else "response:content-length-allocation"
     if "index out of bounds" in what:
         return "response:header-line-without-colon"
+    if what.startswith("DIVERGES") or "HANG" in what:
+        return "response:endless-loop"
     try:
         data.decode("ascii")
         return "response:panic-ascii"
@@ -348,11 +352,17 @@ def run_part(tier, work, mir, which):
                         return res
         if which == "np":
             for (d, e), n in zip(keep, nat):
-                if n == "PANIC":
+                if n in ("PANIC", "HANG"):
                     _classify(res, known, pid, {"template": "native probe", "input": d, "kind": "panic", "what": "native probe: panic", "native_dev": n, "native_release": mengine.native_eval(exe_rel, ["resp 0 " + (d.hex() or "-")])[0]})
                     break
         return res
-    jobs = [("ok", n) for n in sorted(OT)] if which == "ok" else [("np", n) for n in sorted(NT)]
+    if which == "ok":
+        jobs = []
+        for n in sorted(OT):
+            nb = len(c02_req.instantiate(z3, OT[n])[0])
+            jobs += [("ok", n if p_ is None else "%s@%s" % (n, p_)) for p_ in c02_req.plans_for(nb, tier, n + " body")]
+    else:
+        jobs = [("np", n) for n in sorted(NT)]
     rs = mengine.pmap(_job, jobs)
     res["results"] = rs
     for r in rs:
@@ -388,10 +398,11 @@ def run_part(tier, work, mir, which):
                 # value mismatch on a conforming response: the native parser must differ from the engine's own reference reading, i.e. from what
                 # the template denotes; replay = native output vs the expectation rebuilt from the concrete bytes
                 exp = _expected_concrete(r["template"], data, tier)
-                nd = mengine.native_eval(exe, ["resp 0 " + (data.hex() or "-")])[0]
-                nr = mengine.native_eval(exe_rel, ["resp 0 " + (data.hex() or "-")])[0]
+                npl = c02_req.native_plan(r.get("plan"))
+                nd = mengine.native_eval(exe, ["resp %d %s" % (npl, data.hex() or "-")])[0]
+                nr = mengine.native_eval(exe_rel, ["resp %d %s" % (npl, data.hex() or "-")])[0]
                 if exp is not None and (nd != exp or nr != exp):
-                    res["violations"].append({"template": r["template"], "replay": {"request_hex": data.hex(), "text": data.decode("latin-1")[:200], "kind": "value", "failed": f["what"], "native_dev": nd[:300], "native_release": nr[:300],
+                    res["violations"].append({"template": r["template"], "replay": {"request_hex": data.hex(), "text": data.decode("latin-1")[:200], "kind": "value", "plan": npl, "failed": f["what"] + ("" if not npl else " [read plan %d]" % npl), "native_dev": nd[:300], "native_release": nr[:300],
                                                                                   "expected": exp[:300], "template": r["template"], "key": "response:value"}})
                 else:
                     res["machinery"].append("value counterexample for template %s (%s) does not reproduce natively: %s" % (r["template"], f["what"][:100], nd[:120]))
